@@ -18,7 +18,8 @@ from harness.util import outcome, Interner, bits
 
 def gstate():
     s = np.random.get_state()
-    return hashlib.sha1(s[1].tobytes() + repr(s[2:]).encode()).hexdigest()[:16]
+    # (the process-global generators: numpy's legacy one and the standard library's)
+    return hashlib.sha1(s[1].tobytes() + repr(s[2:]).encode() + repr(random.getstate()).encode()).hexdigest()[:16]
 
 
 def scr_digest(s):
@@ -74,13 +75,14 @@ def build_ops(tmp, rnd):
                 break
         scr0 = rs.screen()
 
-        def f(seed, name=name, params=params, rs=rs):
-            obj = OPS[name](params)
+        # ONE object per operation, used for every repetition: state kept on the instance between calls would show
+        def f(seed, name=name, params=params, rs=rs, obj=OPS[name](params)):
             fn = obj.generate_plates if name in ("seg", "pair", "perm") else obj.smooth_plates
             return scr_digest(fn(rs.screen(), np.random.default_rng(seed)))
         ops["retro:" + name] = (f, scr_digest(scr0) + repr(params), None)
     rs = small_screen(rnd.randrange(10 ** 6))
-    ops["retro:cover"] = (lambda seed, rs=rs: scr_digest(R.SparseCoverPlateGenerator(True).generate_and_unmask_initial_plate(rs.screen(all_observed=True), np.random.default_rng(seed))),
+    cover = R.SparseCoverPlateGenerator(True)
+    ops["retro:cover"] = (lambda seed, rs=rs: scr_digest(cover.generate_and_unmask_initial_plate(rs.screen(all_observed=True), np.random.default_rng(seed))),
                           scr_digest(rs.screen()), None)
     ops["retro:holdout"] = (lambda seed, rs=rs: "".join(scr_digest(x) for x in R.create_plate_balanced_holdout_set_among_masked_plates(rs.screen(), 0.5, np.random.default_rng(seed))),
                             scr_digest(rs.screen()) + "0.5", None)
@@ -88,8 +90,9 @@ def build_ops(tmp, rnd):
                                    scr_digest(rs.screen()) + "0.4", None)
     # random scorer, DBAL triple sub-sampling, policy filtering / selection
     scr = rs.screen()
+    rscorer = RandomScorer()
     ops["score:random"] = (lambda seed, scr=scr: repr(sorted((int(k), bits(v)) for k, v in
-                           RandomScorer().score({p.plate_id: p for p in scr.plates}, None, None, np.random.default_rng(seed), False).items())), scr_digest(scr), None)
+                           rscorer.score({p.plate_id: p for p in scr.plates}, None, None, np.random.default_rng(seed), False).items())), scr_digest(scr), None)
     g = np.random.default_rng(5)
     n = 12
     pm, pv = g.normal(size=(3, n, 4)), np.exp(g.normal(size=(3, n, 4)))
@@ -245,8 +248,10 @@ def run(ctx):
                 for run_i in range(3):
                     # between runs somebody else reseeds / advances the global generator
                     np.random.seed(rnd.randrange(2 ** 31))
+                    random.seed(rnd.randrange(2 ** 31))
                     for _ in range(rnd.randrange(4)):
                         np.random.normal()
+                        random.random()
                     events.append({"ev": "perturb", "g": it(gstate())})
                     sd = seed if run_i < 2 else seed + 17
                     g0 = gstate()
